@@ -4,50 +4,50 @@ import AslModel.Lemmas.Pos
 /-!
 # C19 helper lemmas: the `CurrLine` / `CurrFileName` / `MomLineCounter` machine of `Model/LineInfo.lean`
 
-1. `realBody`: closed form of what the machine records (no counters): the *mode* of a place in the program says how the
-   line number of a delivered line comes about — `phys c` (read from a file, `c` physical lines consumed),
-   `body S z` (replayed body line of a block that was read from a file: `StartLine = S`, `z` logical lines delivered),
-   `fixed L` (macro expansion, or block not read from a file: always `StartLine = L`).  `run_eq_real`: machine = closed form,
-   for every nesting tree.
-2. `real_adm`: for well-formed trees (no continuation line inside a block body) every record of the closed form is
-   admissible for the SPEC (`specBody`): same statement, same file, line within the statement's own lines or the line
-   of an enclosing statement of that file.
+1. `realBody`: closed form of what the machine records (no counters, no stored offsets): the *mode* of a place in the
+   program says how the line number of a delivered line comes about — `phys c` (read from a file, `c` physical lines
+   consumed), `body S all z` (replayed body line of a block that was read from a file: `StartLine = S`, `all` = the physical
+   sizes of the stored body lines, `z` of them delivered in this pass: the line is `S` + the physical lines of the body
+   passed so far), `fixed L` (macro expansion, or block not read from a file: always `StartLine = L`).
+   `run_eq_real`: machine = closed form, for every nesting tree (`collect_stored`: what `AddBodyLine` stores).
+2. `realBody_adm`: every record of the closed form is admissible for the SPEC (`specBody`): same statement, same file, line
+   within the statement's own lines or the line of an enclosing statement of that file.
 -/
 namespace AslModel.LineInfo
 open AslModel.Pos
 
 inductive Mode where
   | phys (c : Nat)
-  | body (S z : Nat)
+  | body (S : Nat) (all : List Nat) (z : Nat)
   | fixed (L : Nat)
 deriving Repr
 
 /-- `CurrLine` after delivering a logical line of `p` physical lines -/
 def Mode.lineOf : Mode → Nat → Nat
   | .phys c, p => c + p
-  | .body S z, _ => S + z + 1
+  | .body S all z, p => S + sumL (all.take z) + p
   | .fixed L, _ => L
 
 def Mode.adv : Mode → List Nat → Mode
   | .phys c, ps => .phys (c + sumL ps)
-  | .body S z, ps => .body S (z + ps.length)
+  | .body S all z, ps => .body S all (z + ps.length)
   | .fixed L, _ => .fixed L
 
-/-- the mode of the body of a block whose opening line is delivered in mode `m` -/
-def Mode.inner : Mode → Mode
-  | .phys c => .body (c + 1) 0
-  | .body S z => .fixed (S + z + 1)
-  | .fixed L => .fixed L
+/-- the mode of the body (stored lines `ls`) of a block whose opening line is delivered in mode `m` -/
+def Mode.inner : Mode → List Nat → Mode
+  | .phys c, ls => .body (c + 1) ls 0
+  | .body S all z, _ => .fixed (S + sumL (all.take z) + 1)
+  | .fixed L, _ => .fixed L
 
 mutual
 def realItem (file : String) (m : Mode) : Item → List Ev
   | .plain _ => []
   | .fault p id => [.stmt file (m.lineOf p) id]
   | .call _ b => realBody file (.fixed (m.lineOf 1)) b
-  | .rept n b => repeatL n (realBody file m.inner b)
-  | .irp k args b => repeatL (irpIters k args) (realBody file m.inner b)
-  | .irpc s b => repeatL s.length (realBody file m.inner b)
-  | .while_ n b => repeatL n (realBody file m.inner b)
+  | .rept n b => repeatL n (realBody file (m.inner b.lines) b)
+  | .irp k args b => repeatL (irpIters k args) (realBody file (m.inner b.lines) b)
+  | .irpc s b => repeatL s.length (realBody file (m.inner b.lines) b)
+  | .while_ n b => repeatL n (realBody file (m.inner b.lines) b)
   | .incl f b => .opn f :: realBody f (.phys 0) b
 def realBody (file : String) (m : Mode) : Body → List Ev
   | .nil => []
@@ -71,19 +71,54 @@ theorem adv_cons (m : Mode) (p : Nat) (ps : List Nat) : m.adv (p :: ps) = (m.adv
   have := adv_append m [p] ps
   simpa using this
 
+/-- the physical lines of `ps` stored lines that follow the first `z` -/
+theorem sumL_take_room {all ps rest : List Nat} {z : Nat} (h : all.drop z = ps ++ rest) :
+    sumL (all.take (z + ps.length)) = sumL (all.take z) + sumL ps := by
+  rw [List.take_add, h, List.take_left', sumL_append]
+  rfl
+
+/-! ## what `AddBodyLine` has stored -/
+
+/-- `nums` = for every stored body line the physical lines of the body up to and including it -/
+def Stored (nums all : List Nat) : Prop :=
+  nums.length = all.length ∧ ∀ k, k < all.length → nums.getD k 0 = sumL (all.take (k + 1))
+
+theorem Stored.nil : Stored [] [] := ⟨rfl, fun k h => by simp at h⟩
+
+theorem Stored.snoc {nums pre : List Nat} (h : Stored nums pre) (p : Nat) :
+    Stored (nums ++ [sumL pre + p]) (pre ++ [p]) := by
+  obtain ⟨hl, hk⟩ := h
+  refine ⟨by simp [hl], ?_⟩
+  intro k hk'
+  simp only [List.length_append, List.length_singleton] at hk'
+  by_cases hlt : k < pre.length
+  · have h1 := hk k hlt
+    have h2 : (nums ++ [sumL pre + p]).getD k 0 = nums.getD k 0 := by
+      simp [List.getD_eq_getElem?_getD, List.getElem?_append_left (by omega : k < nums.length)]
+    have h3 : (pre ++ [p]).take (k + 1) = pre.take (k + 1) := List.take_append_of_le_length (by omega)
+    rw [h2, h3, h1]
+  · have hke : k = pre.length := by omega
+    subst hke
+    have h2 : (nums ++ [sumL pre + p]).getD pre.length 0 = sumL pre + p := by
+      simp [List.getD_eq_getElem?_getD, ← hl]
+    have h3 : (pre ++ [p]).take (pre.length + 1) = pre ++ [p] := by
+      apply List.take_of_length_le; simp
+    rw [h2, h3, sumL_append]
+    simp [sumL]
+
 /-! ## the invariant tying a mode to the machine state -/
 
 def Inv (m : Mode) (g : Glob) (t : Tag) : Prop :=
   match m with
   | .phys c => t.kind = .incl ∧ g.mom = c
-  | .body S z => t.kind = .loop ∧ t.fromFile = true ∧ t.startLine = S ∧ z ≤ t.lineCnt ∧
-      t.lineZ = (if z = t.lineCnt then 1 else z + 1)
+  | .body S all z => t.kind = .loop ∧ t.fromFile = true ∧ t.startLine = S ∧ t.lineCnt = all.length ∧
+      Stored t.lineNums all ∧ z ≤ all.length ∧ t.lineZ = (if z = all.length then 1 else z + 1)
   | .fixed L => (t.kind = .macro ∨ (t.kind = .loop ∧ t.fromFile = false)) ∧ t.startLine = L
 
-/-- the body of the block still has `n` lines to deliver -/
-def Room (m : Mode) (t : Tag) (n : Nat) : Prop :=
+/-- the lines still to be delivered in this pass through the block's body begin with `ps` -/
+def Room (m : Mode) (ps : List Nat) : Prop :=
   match m with
-  | .body _ z => z + n ≤ t.lineCnt
+  | .body _ all z => ∃ rest, all.drop z = ps ++ rest
   | _ => True
 
 /-- what a construct leaves untouched: `CurrFileName`, and `MomLineCounter` unless lines are read from the file -/
@@ -105,56 +140,120 @@ theorem Keep_to_adv {m : Mode} (ps : List Nat) {a b : Glob} (h : Keep m a b) : K
 theorem Keep_of_fixed {L : Nat} {m : Mode} {a b : Glob} (h : Keep (.fixed L) a b) : Keep m a b := by
   cases m <;> simp [Keep] at * <;> simp_all
 
-theorem Room_mono {m : Mode} {t : Tag} {n k : Nat} (h : Room m t n) (hk : k ≤ n) : Room m t k := by
-  cases m <;> simp [Room] at * ; omega
+theorem Room_left {m : Mode} {a b : List Nat} (h : Room m (a ++ b)) : Room m a := by
+  cases m with
+  | body S all z =>
+    obtain ⟨rest, hr⟩ := h
+    exact ⟨b ++ rest, by rw [hr, List.append_assoc]⟩
+  | phys c => trivial
+  | fixed L => trivial
+
+theorem Room_right {m : Mode} {a b : List Nat} (h : Room m (a ++ b)) : Room (m.adv a) b := by
+  cases m with
+  | body S all z =>
+    obtain ⟨rest, hr⟩ := h
+    refine ⟨rest, ?_⟩
+    show all.drop (z + a.length) = b ++ rest
+    rw [← List.drop_drop, hr, List.append_assoc, List.drop_left]
+  | phys c => trivial
+  | fixed L => trivial
 
 theorem Inv_mom {m : Mode} {g g' : Glob} {t : Tag} (h : Inv m g t) (hm : g'.mom = g.mom) : Inv m g' t := by
   cases m <;> simp [Inv] at * <;> simp_all
 
 /-- one delivered line -/
-theorem deliver_spec {m : Mode} {g : Glob} {t : Tag} (p : Nat) (h : Inv m g t) (hr : Room m t 1) :
+theorem deliver_spec {m : Mode} {g : Glob} {t : Tag} (p : Nat) (h : Inv m g t) (hr : Room m [p]) :
     Inv (m.adv [p]) (deliver g t p).1 (deliver g t p).2 ∧ (deliver g t p).1.curLine = m.lineOf p ∧
-    Keep m g (deliver g t p).1 ∧ (deliver g t p).2.lineCnt = t.lineCnt := by
+    Keep m g (deliver g t p).1 := by
   cases m with
   | phys c =>
     obtain ⟨hk, hm⟩ := h
     simp [deliver, hk, Inv, Mode.adv, Mode.lineOf, Keep, sumL, hm]
-  | body S z =>
-    obtain ⟨hk, hf, hs, hz, hl⟩ := h
-    simp only [Room] at hr
-    have hne : z ≠ t.lineCnt := by omega
+  | body S all z =>
+    obtain ⟨hk, hf, hs, hc, hst, hz, hl⟩ := h
+    obtain ⟨rest, hd⟩ := hr
+    have hlt : z < all.length := by
+      by_cases hge : all.length ≤ z
+      · rw [List.drop_eq_nil_of_le hge] at hd; simp at hd
+      · omega
+    have hne : z ≠ all.length := by omega
     simp only [hne, if_false] at hl
-    simp only [deliver, hk, hf, if_true, Inv, Mode.adv, Mode.lineOf, Keep, List.length_singleton, hl, hs, and_true, true_and]
-    refine ⟨⟨by omega, ?_⟩, by omega⟩
-    by_cases h1 : z + 1 = t.lineCnt
-    · simp [h1]
-    · have : ¬ (z + 1 + 1 > t.lineCnt) := by omega
-      simp [h1, this]
+    have hsum := sumL_take_room hd
+    simp only [List.length_singleton, sumL, Nat.add_zero] at hsum
+    have hget : t.lineNums.getD (t.lineZ - 1) 0 = sumL (all.take z) + p := by
+      rw [hl, Nat.add_sub_cancel, hst.2 z hlt, hsum]
+    refine ⟨?_, ?_, ?_⟩
+    · simp only [deliver, hk, Inv, Mode.adv, List.length_singleton]
+      refine ⟨trivial, hf, hs, hc, hst, by omega, ?_⟩
+      rw [hl, hc]
+      by_cases h1 : z + 1 = all.length
+      · simp [h1]
+      · have : ¬ (z + 1 + 1 > all.length) := by omega
+        simp [h1, this]
+    · simp only [deliver, hk, hf, if_true, Mode.lineOf, hget, hs]; omega
+    · simp [deliver, hk, Keep]
   | fixed L =>
     obtain ⟨hk, hs⟩ := h
     rcases hk with hk | ⟨hk, hf⟩
     · simp [deliver, hk, Inv, Mode.adv, Mode.lineOf, Keep, hs]
     · simp [deliver, hk, hf, Inv, Mode.adv, Mode.lineOf, Keep, hs]
 
-/-- several delivered lines (a block is collected) -/
-theorem consume_spec (ps : List Nat) : ∀ {m : Mode} {g : Glob} {t : Tag}, Inv m g t → Room m t ps.length →
-    Inv (m.adv ps) (consume g t ps).1 (consume g t ps).2 ∧ Keep m g (consume g t ps).1 ∧
-    (consume g t ps).2.lineCnt = t.lineCnt := by
+/-- several delivered lines -/
+theorem consume_spec (ps : List Nat) : ∀ {m : Mode} {g : Glob} {t : Tag}, Inv m g t → Room m ps →
+    Inv (m.adv ps) (consume g t ps).1 (consume g t ps).2 ∧ Keep m g (consume g t ps).1 := by
   induction ps with
   | nil =>
     intro m g t h _
-    refine ⟨?_, Keep.refl m g, rfl⟩
+    refine ⟨?_, Keep.refl m g⟩
     rw [adv_nil]; exact h
   | cons p ps ih =>
     intro m g t h hr
-    have hr1 : Room m t 1 := Room_mono hr (by simp)
-    obtain ⟨h1, _, hk1, hc1⟩ := deliver_spec p h hr1
-    have hr2 : Room (m.adv [p]) (deliver g t p).2 ps.length := by
-      cases m <;> simp [Room, Mode.adv] at * ; omega
-    obtain ⟨h2, hk2, hc2⟩ := ih h1 hr2
+    have hr' : Room m ([p] ++ ps) := hr
+    obtain ⟨h1, _, hk1⟩ := deliver_spec p h (Room_left hr')
+    obtain ⟨h2, hk2⟩ := ih h1 (Room_right hr')
     simp only [consume]
     rw [adv_cons]
-    exact ⟨h2, Keep.trans hk1 (Keep_adv [p] hk2), by rw [hc2, hc1]⟩
+    exact ⟨h2, Keep.trans hk1 (Keep_adv [p] hk2)⟩
+
+/-! ## collecting the body of a block -/
+
+/-- the supplying tag's side of `collect` -/
+theorem collect_sup (ps : List Nat) : ∀ (g : Glob) (sup tag : Tag), (collect g sup tag ps).1 = consume g sup ps := by
+  induction ps with
+  | nil => intro g sup tag; rfl
+  | cons p ps ih => intro g sup tag; simp only [collect, consume]; exact ih _ _ _
+
+/-- what `AddBodyLine` leaves alone, and `LineCnt` -/
+theorem collect_frame (ps : List Nat) : ∀ (g : Glob) (sup tag : Tag),
+    (collect g sup tag ps).2.kind = tag.kind ∧ (collect g sup tag ps).2.startLine = tag.startLine ∧
+    (collect g sup tag ps).2.fromFile = tag.fromFile ∧ (collect g sup tag ps).2.lineZ = tag.lineZ ∧
+    (collect g sup tag ps).2.lineCnt = tag.lineCnt + ps.length := by
+  induction ps with
+  | nil => intro g sup tag; simp [collect]
+  | cons p ps ih =>
+    intro g sup tag
+    obtain ⟨h1, h2, h3, h4, h5⟩ := ih (deliver g sup p).1 (deliver g sup p).2 (addBodyLine (deliver g sup p).1 tag)
+    simp only [collect]
+    refine ⟨h1, h2, h3, h4, ?_⟩
+    rw [h5]; simp [addBodyLine]; omega
+
+/-- **`AddBodyLine`'s values** when the body is read from a file: the tag was generated at line `StartLine`, `pre` are the
+body lines stored so far; every further line is stored with the physical lines of the body up to and including it (the
+subtraction `CurrLine - StartLine` never truncates) -/
+theorem collect_stored (ps : List Nat) : ∀ (g : Glob) (sup tag : Tag) (pre : List Nat), sup.kind = .incl →
+    g.mom = tag.startLine + sumL pre → Stored tag.lineNums pre → Stored (collect g sup tag ps).2.lineNums (pre ++ ps) := by
+  induction ps with
+  | nil => intro g sup tag pre _ _ hs; simpa [collect] using hs
+  | cons p ps ih =>
+    intro g sup tag pre hk hm hs
+    simp only [collect]
+    have h := ih (deliver g sup p).1 (deliver g sup p).2 (addBodyLine (deliver g sup p).1 tag) (pre ++ [p])
+      (by simp [deliver, hk]) (by simp [deliver, hk, addBodyLine, hm, sumL_append, sumL]; omega)
+      (by
+        have : (deliver g sup p).1.curLine - tag.startLine = sumL pre + p := by simp [deliver, hk, hm]; omega
+        simp only [addBodyLine, this]
+        exact hs.snoc p)
+    simpa [List.append_assoc] using h
 
 /-! ## iterations -/
 
@@ -172,110 +271,118 @@ theorem iter_spec {σ α : Type} (f : σ → σ × List α) (P : σ → Prop) (o
     exact ⟨h3, by rw [h2, h4]⟩
 
 /-- result of running an item / a body that occupies the lines `ps` -/
-structure Res (m : Mode) (g : Glob) (t : Tag) (ps : List Nat) (out : List Ev) (r : (Glob × Tag) × List Ev) : Prop where
+structure Res (m : Mode) (g : Glob) (ps : List Nat) (out : List Ev) (r : (Glob × Tag) × List Ev) : Prop where
   inv : Inv (m.adv ps) r.1.1 r.1.2
   keep : Keep m g r.1.1
-  cnt : r.1.2.lineCnt = t.lineCnt
   out : r.2 = out
 
-/-- the tag of a block generated after its opening line was delivered in mode `m` satisfies the invariant of the
-body's mode (whatever the globals are) -/
-theorem inner_inv {m : Mode} {g : Glob} {t : Tag} (p : List Nat) (h : Inv (m.adv p) g t) (g0 g' : Glob) (L : Nat)
-    (hl : g0.curLine = m.lineOf 1) :
-    Inv m.inner g' { genProc g0 t .loop with lineCnt := L } := by
+/-- the tag of a block, generated after the opening line was delivered in mode `m` and filled with the body lines `ls`,
+satisfies the invariant of the body's mode (whatever the globals are) -/
+theorem inner_inv {m : Mode} {g0 : Glob} {t0 : Tag} (h : Inv (m.adv [1]) g0 t0) (hl : g0.curLine = m.lineOf 1)
+    (ls : List Nat) (g' : Glob) :
+    Inv (m.inner ls) g' (collect g0 t0 (genProc g0 t0 .loop) ls).2 := by
+  obtain ⟨f1, f2, f3, f4, f5⟩ := collect_frame ls g0 t0 (genProc g0 t0 .loop)
   cases m with
   | phys c =>
+    obtain ⟨hk, hm⟩ := h
+    have hst := collect_stored ls g0 t0 (genProc g0 t0 .loop) [] hk
+      (by simp [genProc, hl, hm, Mode.lineOf, sumL]) Stored.nil
+    simp only [List.nil_append] at hst
+    simp only [Inv, Mode.inner]
+    refine ⟨by rw [f1]; rfl, by rw [f3]; simp [genProc, hk], by rw [f2]; simp [genProc, hl, Mode.lineOf],
+      by rw [f5]; simp [genProc], hst, Nat.zero_le _, ?_⟩
+    rw [f4]; simp [genProc]
+  | body S all z =>
     obtain ⟨hk, _⟩ := h
-    simp [Inv, Mode.inner, genProc, hk, hl, Mode.lineOf]
-  | body S z =>
-    obtain ⟨hk, _⟩ := h
-    simp [Inv, Mode.inner, genProc, hk, hl, Mode.lineOf]
+    simp only [Inv, Mode.inner]
+    exact ⟨Or.inr ⟨by rw [f1]; rfl, by rw [f3]; simp [genProc, hk]⟩, by rw [f2]; simp [genProc, hl, Mode.lineOf]⟩
   | fixed L0 =>
-    obtain ⟨hk, _⟩ := h
-    rcases hk with hk | ⟨hk, _⟩ <;> simp [Inv, Mode.inner, genProc, hk, hl, Mode.lineOf]
+    obtain ⟨hk, hs⟩ := h
+    simp only [Inv, Mode.inner]
+    refine ⟨Or.inr ⟨by rw [f1]; rfl, ?_⟩, by rw [f2]; simp [genProc, hl, Mode.lineOf]⟩
+    rw [f3]
+    rcases hk with hk | ⟨hk, _⟩ <;> simp [genProc, hk]
 
 /-- the end of one pass through the body is the start of the next -/
-theorem wrap_inv {m : Mode} {g : Glob} {t : Tag} (ps : List Nat) (h : Inv (m.inner.adv ps) g t) (hl : ps.length = t.lineCnt) :
-    Inv m.inner g t := by
+theorem wrap_inv {m : Mode} {g : Glob} {t : Tag} (ls : List Nat) (h : Inv ((m.inner ls).adv ls) g t) :
+    Inv (m.inner ls) g t := by
   cases m with
   | phys c =>
     simp only [Mode.inner, Mode.adv, Inv] at *
-    obtain ⟨hk, hf, hs, _, hz⟩ := h
-    refine ⟨hk, hf, hs, by omega, ?_⟩
-    have : 0 + ps.length = t.lineCnt := by omega
-    simp only [this, if_true] at hz
+    obtain ⟨hk, hf, hs, hc, hst, _, hz⟩ := h
+    refine ⟨hk, hf, hs, hc, hst, Nat.zero_le _, ?_⟩
+    simp only [Nat.zero_add, if_true] at hz
     rw [hz]; split <;> rfl
-  | body S z => simpa [Mode.inner, Mode.adv, Inv] using h
+  | body S all z => simpa [Mode.inner, Mode.adv, Inv] using h
   | fixed L => simpa [Mode.inner, Mode.adv, Inv] using h
 
-theorem room_inner (m : Mode) (t : Tag) (n : Nat) (h : t.lineCnt = n) : Room m.inner t n := by
-  cases m <;> simp [Mode.inner, Room]; omega
+theorem room_inner (m : Mode) (ls : List Nat) : Room (m.inner ls) ls := by
+  cases m with
+  | phys c => exact ⟨[], by simp⟩
+  | body S all z => trivial
+  | fixed L => trivial
 
 /-- a block: opening line, body and ENDM delivered by the supplying tag, then `n` passes through the body -/
 theorem loop_spec (b : Body) (n : Nat) (m : Mode) (g : Glob) (t : Tag) (hI : Inv m g t)
-    (hR : Room m t (1 :: (b.lines ++ [1])).length)
-    (ih : ∀ (m : Mode) (g : Glob) (t : Tag), Inv m g t → Room m t b.lines.length →
-      Res m g t b.lines (realBody g.curFile m b) (runBody g t b)) :
-    Res m g t (1 :: (b.lines ++ [1])) (repeatL n (realBody g.curFile m.inner b))
-      (((iter (fun s => runBody s.1 s.2 b) n
-          ((consume (deliver g t 1).1 (deliver g t 1).2 (b.lines ++ [1])).1,
-           { genProc (deliver g t 1).1 (deliver g t 1).2 .loop with lineCnt := b.lines.length })).1.1,
-        (consume (deliver g t 1).1 (deliver g t 1).2 (b.lines ++ [1])).2),
-       (iter (fun s => runBody s.1 s.2 b) n
-          ((consume (deliver g t 1).1 (deliver g t 1).2 (b.lines ++ [1])).1,
-           { genProc (deliver g t 1).1 (deliver g t 1).2 .loop with lineCnt := b.lines.length })).2) := by
-  obtain ⟨h0, hl0, hk0, hc0⟩ := deliver_spec 1 hI (Room_mono hR (by simp))
-  have hR1 : Room (m.adv [1]) (deliver g t 1).2 (b.lines ++ [1]).length := by
-    cases m <;> simp [Room, Mode.adv] at * ; omega
-  obtain ⟨h1, hk1, hc1⟩ := consume_spec (b.lines ++ [1]) h0 hR1
+    (hR : Room m (1 :: (b.lines ++ [1])))
+    (ih : ∀ (m : Mode) (g : Glob) (t : Tag), Inv m g t → Room m b.lines →
+      Res m g b.lines (realBody g.curFile m b) (runBody g t b)) :
+    Res m g (1 :: (b.lines ++ [1])) (repeatL n (realBody g.curFile (m.inner b.lines) b))
+      (runLoop g t b.lines n (fun s => runBody s.1 s.2 b)) := by
+  have hR' : Room m ([1] ++ (b.lines ++ [1])) := hR
+  obtain ⟨h0, hl0, hk0⟩ := deliver_spec 1 hI (Room_left hR')
+  have hR1 : Room (m.adv [1]) (b.lines ++ [1]) := Room_right hR'
+  have hT := inner_inv h0 hl0 b.lines
+  have hsup := collect_sup b.lines (deliver g t 1).1 (deliver g t 1).2 (genProc (deliver g t 1).1 (deliver g t 1).2 .loop)
+  obtain ⟨h1, hk1⟩ := consume_spec b.lines h0 (Room_left hR1)
+  rw [← hsup] at h1 hk1
+  obtain ⟨h2, _, hk2⟩ := deliver_spec 1 h1 (Room_right hR1)
+  simp only [runLoop]
   generalize hr0 : deliver g t 1 = r0 at *
-  generalize hr : consume r0.1 r0.2 (b.lines ++ [1]) = r at *
+  generalize hc : collect r0.1 r0.2 (genProc r0.1 r0.2 .loop) b.lines = c at *
+  generalize hr : deliver c.1.1 c.1.2 1 = r at *
+  have hk : Keep m g r.1 :=
+    Keep.trans hk0 (Keep_adv [1] (Keep.trans hk1 (Keep_adv b.lines hk2)))
   let P : Glob × Tag → Prop := fun s =>
-    Inv m.inner s.1 s.2 ∧ s.1.curFile = g.curFile ∧ s.1.mom = r.1.mom ∧ s.2.lineCnt = b.lines.length
-  have hstep : ∀ s, P s → P (runBody s.1 s.2 b).1 ∧ (runBody s.1 s.2 b).2 = realBody g.curFile m.inner b := by
+    Inv (m.inner b.lines) s.1 s.2 ∧ s.1.curFile = g.curFile ∧ s.1.mom = r.1.mom
+  have hstep : ∀ s, P s → P (runBody s.1 s.2 b).1 ∧ (runBody s.1 s.2 b).2 = realBody g.curFile (m.inner b.lines) b := by
     intro s hs
-    obtain ⟨hs1, hs2, hs3, hs4⟩ := hs
-    have q := ih m.inner s.1 s.2 hs1 (room_inner m s.2 _ hs4)
+    obtain ⟨hs1, hs2, hs3⟩ := hs
+    have q := ih (m.inner b.lines) s.1 s.2 hs1 (room_inner m b.lines)
     have hkeep : (runBody s.1 s.2 b).1.1.curFile = s.1.curFile ∧ (runBody s.1 s.2 b).1.1.mom = s.1.mom := by
       have := q.keep
       cases m <;> simpa [Keep, Mode.inner] using this
-    refine ⟨⟨wrap_inv b.lines q.inv (by rw [q.cnt, hs4]), by rw [hkeep.1, hs2], by rw [hkeep.2, hs3], by rw [q.cnt, hs4]⟩, ?_⟩
+    refine ⟨⟨wrap_inv b.lines q.inv, by rw [hkeep.1, hs2], by rw [hkeep.2, hs3]⟩, ?_⟩
     rw [q.out, hs2]
-  have hP0 : P (r.1, { genProc r0.1 r0.2 .loop with lineCnt := b.lines.length }) := by
-    refine ⟨inner_inv [1] h0 r0.1 r.1 _ hl0, ?_, rfl, rfl⟩
-    have := (Keep.trans hk0 (Keep_adv [1] hk1)).1
-    exact this
+  have hP0 : P (r.1, c.2) := ⟨hT r.1, hk.1, rfl⟩
   obtain ⟨hPn, hout⟩ := iter_spec (fun s => runBody s.1 s.2 b) P _ hstep n _ hP0
-  obtain ⟨_, hf, hm, _⟩ := hPn
-  refine ⟨?_, ?_, ?_, hout⟩
-  · rw [adv_cons]
-    exact Inv_mom h1 hm
-  · have hk : Keep m g r.1 := Keep.trans hk0 (Keep_adv [1] hk1)
-    refine ⟨hf, ?_⟩
+  obtain ⟨_, hf, hm⟩ := hPn
+  refine ⟨?_, ?_, hout⟩
+  · rw [adv_cons, adv_append]
+    exact Inv_mom h2 hm
+  · refine ⟨hf, ?_⟩
     have := hk.2
     cases m <;> simp at * <;> omega
-  · show r.2.lineCnt = t.lineCnt
-    rw [hc1, hc0]
 
 mutual
-theorem runItem_spec (it : Item) : ∀ (m : Mode) (g : Glob) (t : Tag), Inv m g t → Room m t it.lines.length →
-    Res m g t it.lines (realItem g.curFile m it) (runItem g t it) := by
+theorem runItem_spec (it : Item) : ∀ (m : Mode) (g : Glob) (t : Tag), Inv m g t → Room m it.lines →
+    Res m g it.lines (realItem g.curFile m it) (runItem g t it) := by
   intro m g t hI hR
   cases it with
   | plain p =>
-    obtain ⟨h1, _, hk, hc⟩ := deliver_spec p hI hR
-    exact ⟨h1, hk, hc, rfl⟩
+    obtain ⟨h1, _, hk⟩ := deliver_spec p hI hR
+    exact ⟨h1, hk, rfl⟩
   | fault p id =>
-    obtain ⟨h1, hl, hk, hc⟩ := deliver_spec p hI hR
-    refine ⟨h1, hk, hc, ?_⟩
+    obtain ⟨h1, hl, hk⟩ := deliver_spec p hI hR
+    refine ⟨h1, hk, ?_⟩
     simp only [runItem, realItem, hl, hk.1]
   | call name b =>
-    obtain ⟨h1, hl, hk, hc⟩ := deliver_spec 1 hI hR
+    obtain ⟨h1, hl, hk⟩ := deliver_spec 1 hI hR
     have hT : Inv (.fixed (m.lineOf 1)) (deliver g t 1).1 { genProc (deliver g t 1).1 (deliver g t 1).2 .macro with lineCnt := b.lines.length } := by
       simp [Inv, genProc, hl]
     have q := runBody_spec b (.fixed (m.lineOf 1)) _ _ hT trivial
     simp only [runItem, realItem, Item.lines]
-    refine ⟨?_, ?_, hc, ?_⟩
+    refine ⟨?_, ?_, ?_⟩
     · have : ((runBody (deliver g t 1).1 { genProc (deliver g t 1).1 (deliver g t 1).2 .macro with lineCnt := b.lines.length } b).1.1).mom
           = (deliver g t 1).1.mom := by simpa [Keep] using q.keep.2
       exact Inv_mom h1 this
@@ -294,33 +401,30 @@ theorem runItem_spec (it : Item) : ∀ (m : Mode) (g : Glob) (t : Tag), Inv m g 
     simp only [runItem, realItem, Item.lines]
     exact loop_spec b n m g t hI hR (runBody_spec b)
   | incl f b =>
-    obtain ⟨h1, _, hk, hc⟩ := deliver_spec 1 hI hR
+    obtain ⟨h1, _, hk⟩ := deliver_spec 1 hI hR
     have hT : Inv (.phys 0) { (deliver g t 1).1 with curFile := f, mom := 0 }
         { genProc (deliver g t 1).1 (deliver g t 1).2 .incl with startLine := (deliver g t 1).1.mom, saveAttr := (deliver g t 1).1.curFile, lineZ := 0 } := by
       simp [Inv, genProc]
     have q := runBody_spec b (.phys 0) _ _ hT trivial
     simp only [runItem, realItem, Item.lines]
-    refine ⟨Inv_mom h1 rfl, ?_, hc, ?_⟩
+    refine ⟨Inv_mom h1 rfl, ?_, ?_⟩
     · refine ⟨hk.1, ?_⟩
       have := hk.2
       cases m <;> simp at * <;> exact this
     · rw [q.out]
-theorem runBody_spec (b : Body) : ∀ (m : Mode) (g : Glob) (t : Tag), Inv m g t → Room m t b.lines.length →
-    Res m g t b.lines (realBody g.curFile m b) (runBody g t b) := by
+theorem runBody_spec (b : Body) : ∀ (m : Mode) (g : Glob) (t : Tag), Inv m g t → Room m b.lines →
+    Res m g b.lines (realBody g.curFile m b) (runBody g t b) := by
   intro m g t hI hR
   cases b with
   | nil =>
     simp only [runBody, realBody, Body.lines]
-    exact ⟨by rw [adv_nil]; exact hI, Keep.refl m g, rfl, rfl⟩
+    exact ⟨by rw [adv_nil]; exact hI, Keep.refl m g, rfl⟩
   | cons it b =>
-    have hR1 : Room m t it.lines.length := Room_mono hR (by simp [Body.lines])
-    have r := runItem_spec it m g t hI hR1
-    have hR2 : Room (m.adv it.lines) (runItem g t it).1.2 b.lines.length := by
-      have := r.cnt
-      cases m <;> simp [Room, Mode.adv, Body.lines] at * ; omega
-    have q := runBody_spec b (m.adv it.lines) _ _ r.inv hR2
+    have hR' : Room m (it.lines ++ b.lines) := hR
+    have r := runItem_spec it m g t hI (Room_left hR')
+    have q := runBody_spec b (m.adv it.lines) _ _ r.inv (Room_right hR')
     simp only [runBody, realBody, Body.lines]
-    refine ⟨by rw [adv_append]; exact q.inv, Keep.trans r.keep (Keep_adv _ q.keep), by rw [q.cnt, r.cnt], ?_⟩
+    refine ⟨by rw [adv_append]; exact q.inv, Keep.trans r.keep (Keep_adv _ q.keep), ?_⟩
     rw [r.out, q.out, r.keep.1]
 end
 
@@ -375,52 +479,12 @@ theorem agree_repeat {a : List Ev} {c : List Exec} (h : agree (stmts a) c = true
     simp only [repeatL, stmts_append]
     exact agree_append h ih
 
-mutual
-theorem itemFlat_sumL (it : Item) (h : itemFlat it = true) : sumL it.lines = it.lines.length := by
-  cases it with
-  | plain p => simp [itemFlat] at h; simp [Item.lines, sumL, h]
-  | fault p id => simp [itemFlat] at h; simp [Item.lines, sumL, h]
-  | call n b => simp [Item.lines, sumL]
-  | rept n b =>
-    have := bodyFlat_sumL b (by simpa [itemFlat] using h)
-    simp [Item.lines, sumL, sumL_append, this]; omega
-  | irp k a b =>
-    have := bodyFlat_sumL b (by simpa [itemFlat] using h)
-    simp [Item.lines, sumL, sumL_append, this]; omega
-  | irpc s b =>
-    have := bodyFlat_sumL b (by simpa [itemFlat] using h)
-    simp [Item.lines, sumL, sumL_append, this]; omega
-  | while_ n b =>
-    have := bodyFlat_sumL b (by simpa [itemFlat] using h)
-    simp [Item.lines, sumL, sumL_append, this]; omega
-  | incl f b => simp [Item.lines, sumL]
-theorem bodyFlat_sumL (b : Body) (h : bodyFlat b = true) : sumL b.lines = b.lines.length := by
-  cases b with
-  | nil => simp [Body.lines, sumL]
-  | cons it b =>
-    simp only [bodyFlat, Bool.and_eq_true] at h
-    have h1 := itemFlat_sumL it h.1
-    have h2 := bodyFlat_sumL b h.2
-    simp [Body.lines, sumL_append, h1, h2]
-end
-
 /-- how a mode is reflected in the SPEC's parameters -/
 def Rel (m : Mode) (base : Option Nat) (encl : List (Nat × Nat)) : Prop :=
   match m with
   | .phys c => base = some c
-  | .body S z => base = some (S + z)
+  | .body S all z => base = some (S + sumL (all.take z))
   | .fixed L => (L, L) ∈ encl
-
-/-- inside a block body read from a file the lines must not be continued -/
-def FlatIfI (m : Mode) (it : Item) : Prop :=
-  match m with
-  | .body _ _ => itemFlat it = true
-  | _ => True
-
-def FlatIfB (m : Mode) (b : Body) : Prop :=
-  match m with
-  | .body _ _ => bodyFlat b = true
-  | _ => True
 
 theorem inRanges_append_right (l : Nat) (a b : List (Nat × Nat)) (h : inRanges l b = true) : inRanges l (a ++ b) = true := by
   simp [inRanges] at *
@@ -441,22 +505,31 @@ theorem rel_opener {m : Mode} {base : Option Nat} {encl : List (Nat × Nat)} (h 
     (m.lineOf 1, m.lineOf 1) ∈ ownRange base 1 ++ encl := by
   cases m with
   | phys c => simp [Rel] at h; simp [h, ownRange, Mode.lineOf]
-  | body S z => simp [Rel] at h; simp [h, ownRange, Mode.lineOf]
+  | body S all z => simp [Rel] at h; simp [h, ownRange, Mode.lineOf]
   | fixed L => simp [Rel] at h; simp [Mode.lineOf, h]
 
-theorem rel_inner {m : Mode} {base : Option Nat} {encl : List (Nat × Nat)} (h : Rel m base encl) :
-    Rel m.inner (base.map (· + 1)) (ownRange base 1 ++ encl) := by
+theorem rel_inner {m : Mode} {base : Option Nat} {encl : List (Nat × Nat)} (h : Rel m base encl) (ls : List Nat) :
+    Rel (m.inner ls) (base.map (· + 1)) (ownRange base 1 ++ encl) := by
   cases m with
-  | phys c => simp [Rel] at h; simp [h, Rel, Mode.inner]
-  | body S z => simp [Rel] at h; simp [h, Rel, Mode.inner, ownRange]
+  | phys c => simp [Rel] at h; simp [h, Rel, Mode.inner, sumL]
+  | body S all z => simp [Rel] at h; simp [h, Rel, Mode.inner, ownRange]
   | fixed L => simp [Rel] at h; simp [Rel, Mode.inner, h]
 
-theorem flat_inner (m : Mode) (b : Body) (h : bodyFlat b = true) : FlatIfB m.inner b := by
-  cases m <;> simp [Mode.inner, FlatIfB, h]
+/-- passing the lines `ps` of an item -/
+theorem rel_adv {m : Mode} {base : Option Nat} {encl : List (Nat × Nat)} {ps : List Nat} (h : Rel m base encl)
+    (hr : Room m ps) : Rel (m.adv ps) (base.map (· + sumL ps)) encl := by
+  cases m with
+  | phys c => simp [Rel] at h; simp [h, Rel, Mode.adv]
+  | body S all z =>
+    simp [Rel] at h
+    obtain ⟨rest, hd⟩ := hr
+    have := sumL_take_room hd
+    simp [h, Rel, Mode.adv, this]; omega
+  | fixed L => simpa [Rel, Mode.adv] using h
 
 mutual
 theorem realItem_adm (it : Item) : ∀ (file : String) (depth : Nat) (m : Mode) (base : Option Nat) (encl : List (Nat × Nat)),
-    Rel m base encl → FlatIfI m it → itemWf it = true →
+    Rel m base encl → Room m it.lines → itemWf it = true →
     agree (stmts (realItem file m it)) (specItem file depth base encl it) = true := by
   intro file depth m base encl hR hF hW
   cases it with
@@ -469,10 +542,9 @@ theorem realItem_adm (it : Item) : ∀ (file : String) (depth : Nat) (m : Mode) 
       simp [Rel] at hR
       simp only [hR, ownRange, Mode.lineOf, List.cons_append, List.nil_append]
       exact inRanges_own _ _ _ _ (by omega) (by omega)
-    | body S z =>
+    | body S all z =>
       simp [Rel] at hR
-      simp [FlatIfI, itemFlat] at hF
-      simp only [hR, hF, ownRange, Mode.lineOf, List.cons_append, List.nil_append]
+      simp only [hR, ownRange, Mode.lineOf, List.cons_append, List.nil_append]
       exact inRanges_own _ _ _ _ (by omega) (by omega)
     | fixed L =>
       simp [Rel] at hR
@@ -482,46 +554,31 @@ theorem realItem_adm (it : Item) : ∀ (file : String) (depth : Nat) (m : Mode) 
     exact realBody_adm b file depth _ none _ (by simpa [Rel] using rel_opener hR) trivial (by simpa [itemWf] using hW)
   | rept n b =>
     simp only [realItem, specItem]
-    simp only [itemWf, Bool.and_eq_true] at hW
-    exact agree_repeat (realBody_adm b file depth _ _ _ (rel_inner hR) (flat_inner m b hW.1) hW.2) n
+    exact agree_repeat (realBody_adm b file depth _ _ _ (rel_inner hR b.lines) (room_inner m b.lines) (by simpa [itemWf] using hW)) n
   | irp k args b =>
     simp only [realItem, specItem]
-    simp only [itemWf, Bool.and_eq_true] at hW
-    exact agree_repeat (realBody_adm b file depth _ _ _ (rel_inner hR) (flat_inner m b hW.1) hW.2) _
+    exact agree_repeat (realBody_adm b file depth _ _ _ (rel_inner hR b.lines) (room_inner m b.lines) (by simpa [itemWf] using hW)) _
   | irpc s b =>
     simp only [realItem, specItem]
-    simp only [itemWf, Bool.and_eq_true] at hW
-    exact agree_repeat (realBody_adm b file depth _ _ _ (rel_inner hR) (flat_inner m b hW.1) hW.2) _
+    exact agree_repeat (realBody_adm b file depth _ _ _ (rel_inner hR b.lines) (room_inner m b.lines) (by simpa [itemWf] using hW)) _
   | while_ n b =>
     simp only [realItem, specItem]
-    simp only [itemWf, Bool.and_eq_true] at hW
-    exact agree_repeat (realBody_adm b file depth _ _ _ (rel_inner hR) (flat_inner m b hW.1) hW.2) n
+    exact agree_repeat (realBody_adm b file depth _ _ _ (rel_inner hR b.lines) (room_inner m b.lines) (by simpa [itemWf] using hW)) n
   | incl f b =>
     simp only [realItem, specItem, stmts]
     exact realBody_adm b f (depth + 1) (.phys 0) (some 0) [] (by simp [Rel]) trivial (by simpa [itemWf] using hW)
 theorem realBody_adm (b : Body) : ∀ (file : String) (depth : Nat) (m : Mode) (base : Option Nat) (encl : List (Nat × Nat)),
-    Rel m base encl → FlatIfB m b → bodyWf b = true →
+    Rel m base encl → Room m b.lines → bodyWf b = true →
     agree (stmts (realBody file m b)) (specBody file depth base encl b) = true := by
   intro file depth m base encl hR hF hW
   cases b with
   | nil => simp [realBody, specBody, stmts, agree]
   | cons it b =>
     simp only [bodyWf, Bool.and_eq_true] at hW
-    have hFi : FlatIfI m it := by
-      cases m <;> simp [FlatIfI, FlatIfB, bodyFlat] at * ; exact hF.1
-    have hFb : FlatIfB (m.adv it.lines) b := by
-      cases m <;> simp [FlatIfI, FlatIfB, bodyFlat, Mode.adv] at * ; exact hF.2
-    have hR2 : Rel (m.adv it.lines) (base.map (· + sumL it.lines)) encl := by
-      cases m with
-      | phys c => simp [Rel] at hR; simp [hR, Rel, Mode.adv]
-      | body S z =>
-        simp [Rel] at hR
-        have := itemFlat_sumL it (by simpa [FlatIfI] using hFi)
-        simp [hR, Rel, Mode.adv, this]; omega
-      | fixed L => simpa [Rel, Mode.adv] using hR
+    have hF' : Room m (it.lines ++ b.lines) := hF
     simp only [realBody, specBody, stmts_append]
-    exact agree_append (realItem_adm it file depth m base encl hR hFi hW.1)
-      (realBody_adm b file depth _ _ encl hR2 hFb hW.2)
+    exact agree_append (realItem_adm it file depth m base encl hR (Room_left hF') hW.1)
+      (realBody_adm b file depth _ _ encl (rel_adv hR (Room_left hF')) (Room_right hF') hW.2)
 end
 
 /-! ## addresses -/
@@ -593,34 +650,45 @@ theorem agreeX_repeat {a : List Ev} {c : List Exec} (h : agreeX (stmts a) c = tr
 def RelX (m : Mode) (base : Option Nat) : Prop :=
   match m with
   | .phys c => base = some c
-  | .body S z => base = some (S + z)
+  | .body S all z => base = some (S + sumL (all.take z))
   | .fixed _ => False
 
 def DirI (m : Mode) (it : Item) : Prop :=
   match m with
   | .phys _ => itemDirect it = true
-  | .body _ _ => itemSimple it = true ∧ itemFlat it = true
+  | .body _ _ _ => itemSimple it = true
   | .fixed _ => False
 
 def DirB (m : Mode) (b : Body) : Prop :=
   match m with
   | .phys _ => bodyDirect b = true
-  | .body _ _ => bodySimple b = true ∧ bodyFlat b = true
+  | .body _ _ _ => bodySimple b = true
   | .fixed _ => False
 
 theorem loopX {m : Mode} {base : Option Nat} {b : Body} (hR : RelX m base)
-    (hD : match m with | .phys _ => bodySimple b = true | _ => False) (hF : bodyFlat b = true) :
-    RelX m.inner (base.map (· + 1)) ∧ DirB m.inner b := by
+    (hD : match m with | .phys _ => bodySimple b = true | _ => False) (ls : List Nat) :
+    RelX (m.inner ls) (base.map (· + 1)) ∧ DirB (m.inner ls) b := by
   cases m with
-  | phys c => simp [RelX] at hR; simp [hR, RelX, Mode.inner, DirB, hF]; exact hD
-  | body S z => exact False.elim hD
+  | phys c => simp [RelX] at hR; simp [hR, RelX, Mode.inner, DirB, sumL]; exact hD
+  | body S all z => exact False.elim hD
   | fixed L => exact False.elim hD
+
+theorem relX_adv {m : Mode} {base : Option Nat} {ps : List Nat} (h : RelX m base) (hr : Room m ps) :
+    RelX (m.adv ps) (base.map (· + sumL ps)) := by
+  cases m with
+  | phys c => simp [RelX] at h; simp [h, RelX, Mode.adv]
+  | body S all z =>
+    simp [RelX] at h
+    obtain ⟨rest, hd⟩ := hr
+    have := sumL_take_room hd
+    simp [h, RelX, Mode.adv, this]; omega
+  | fixed L => exact False.elim h
 
 mutual
 theorem realItem_exact (it : Item) : ∀ (file : String) (depth : Nat) (m : Mode) (base : Option Nat) (encl : List (Nat × Nat)),
-    RelX m base → DirI m it → itemWf it = true →
+    RelX m base → DirI m it → Room m it.lines → itemWf it = true →
     agreeX (stmts (realItem file m it)) (specItem file depth base encl it) = true := by
-  intro file depth m base encl hR hD hW
+  intro file depth m base encl hR hD hF hW
   cases it with
   | plain p => simp [realItem, specItem, stmts, agreeX]
   | fault p id =>
@@ -631,68 +699,56 @@ theorem realItem_exact (it : Item) : ∀ (file : String) (depth : Nat) (m : Mode
       simp [RelX] at hR
       simp only [hR, ownRange, Mode.lineOf, List.cons_append, List.nil_append, List.take_succ_cons, List.take_zero]
       exact inRanges_own _ _ _ _ (by omega) (by omega)
-    | body S z =>
+    | body S all z =>
       simp [RelX] at hR
-      simp [DirI, itemFlat] at hD
-      simp only [hR, hD, ownRange, Mode.lineOf, List.cons_append, List.nil_append, List.take_succ_cons, List.take_zero]
+      simp only [hR, ownRange, Mode.lineOf, List.cons_append, List.nil_append, List.take_succ_cons, List.take_zero]
       exact inRanges_own _ _ _ _ (by omega) (by omega)
     | fixed L => exact False.elim hR
   | call name b =>
     cases m with
     | phys c => simp [DirI, itemDirect] at hD
-    | body S z => simp [DirI, itemSimple] at hD
+    | body S all z => simp [DirI, itemSimple] at hD
     | fixed L => exact False.elim hR
   | rept n b =>
     simp only [realItem, specItem]
-    simp only [itemWf, Bool.and_eq_true] at hW
-    have h := loopX (b := b) hR (by cases m <;> simp [DirI, itemDirect, itemSimple] at hD ⊢ <;> exact hD) hW.1
-    exact agreeX_repeat (realBody_exact b file depth _ _ _ h.1 h.2 hW.2) n
+    have h := loopX (b := b) hR (by cases m <;> simp [DirI, itemDirect, itemSimple] at hD ⊢ <;> exact hD) b.lines
+    exact agreeX_repeat (realBody_exact b file depth _ _ _ h.1 h.2 (room_inner m b.lines) (by simpa [itemWf] using hW)) n
   | irp k args b =>
     simp only [realItem, specItem]
-    simp only [itemWf, Bool.and_eq_true] at hW
-    have h := loopX (b := b) hR (by cases m <;> simp [DirI, itemDirect, itemSimple] at hD ⊢ <;> exact hD) hW.1
-    exact agreeX_repeat (realBody_exact b file depth _ _ _ h.1 h.2 hW.2) _
+    have h := loopX (b := b) hR (by cases m <;> simp [DirI, itemDirect, itemSimple] at hD ⊢ <;> exact hD) b.lines
+    exact agreeX_repeat (realBody_exact b file depth _ _ _ h.1 h.2 (room_inner m b.lines) (by simpa [itemWf] using hW)) _
   | irpc s b =>
     simp only [realItem, specItem]
-    simp only [itemWf, Bool.and_eq_true] at hW
-    have h := loopX (b := b) hR (by cases m <;> simp [DirI, itemDirect, itemSimple] at hD ⊢ <;> exact hD) hW.1
-    exact agreeX_repeat (realBody_exact b file depth _ _ _ h.1 h.2 hW.2) _
+    have h := loopX (b := b) hR (by cases m <;> simp [DirI, itemDirect, itemSimple] at hD ⊢ <;> exact hD) b.lines
+    exact agreeX_repeat (realBody_exact b file depth _ _ _ h.1 h.2 (room_inner m b.lines) (by simpa [itemWf] using hW)) _
   | while_ n b =>
     simp only [realItem, specItem]
-    simp only [itemWf, Bool.and_eq_true] at hW
-    have h := loopX (b := b) hR (by cases m <;> simp [DirI, itemDirect, itemSimple] at hD ⊢ <;> exact hD) hW.1
-    exact agreeX_repeat (realBody_exact b file depth _ _ _ h.1 h.2 hW.2) n
+    have h := loopX (b := b) hR (by cases m <;> simp [DirI, itemDirect, itemSimple] at hD ⊢ <;> exact hD) b.lines
+    exact agreeX_repeat (realBody_exact b file depth _ _ _ h.1 h.2 (room_inner m b.lines) (by simpa [itemWf] using hW)) n
   | incl f b =>
     simp only [realItem, specItem, stmts]
     have hb : bodyDirect b = true := by
       cases m with
       | phys c => simpa [DirI, itemDirect] using hD
-      | body S z => simp [DirI, itemSimple] at hD; exact hD.1
+      | body S all z => simpa [DirI, itemSimple] using hD
       | fixed L => exact False.elim hR
-    exact realBody_exact b f (depth + 1) (.phys 0) (some 0) [] (by simp [RelX]) (by simpa [DirB] using hb) (by simpa [itemWf] using hW)
+    exact realBody_exact b f (depth + 1) (.phys 0) (some 0) [] (by simp [RelX]) (by simpa [DirB] using hb) trivial (by simpa [itemWf] using hW)
 theorem realBody_exact (b : Body) : ∀ (file : String) (depth : Nat) (m : Mode) (base : Option Nat) (encl : List (Nat × Nat)),
-    RelX m base → DirB m b → bodyWf b = true →
+    RelX m base → DirB m b → Room m b.lines → bodyWf b = true →
     agreeX (stmts (realBody file m b)) (specBody file depth base encl b) = true := by
-  intro file depth m base encl hR hD hW
+  intro file depth m base encl hR hD hF hW
   cases b with
   | nil => simp [realBody, specBody, stmts, agreeX]
   | cons it b =>
     simp only [bodyWf, Bool.and_eq_true] at hW
+    have hF' : Room m (it.lines ++ b.lines) := hF
     have hDi : DirI m it := by
-      cases m <;> simp [DirI, DirB, bodyDirect, bodySimple, bodyFlat] at * <;> simp [hD]
+      cases m <;> simp [DirI, DirB, bodyDirect, bodySimple] at * <;> simp [hD]
     have hDb : DirB (m.adv it.lines) b := by
-      cases m <;> simp [DirI, DirB, bodyDirect, bodySimple, bodyFlat, Mode.adv] at * <;> simp [hD]
-    have hR2 : RelX (m.adv it.lines) (base.map (· + sumL it.lines)) := by
-      cases m with
-      | phys c => simp [RelX] at hR; simp [hR, RelX, Mode.adv]
-      | body S z =>
-        simp [RelX] at hR
-        have := itemFlat_sumL it (by simp [DirI] at hDi; exact hDi.2)
-        simp [hR, RelX, Mode.adv, this]; omega
-      | fixed L => exact False.elim hR
+      cases m <;> simp [DirI, DirB, bodyDirect, bodySimple, Mode.adv] at * <;> simp [hD]
     simp only [realBody, specBody, stmts_append]
-    exact agreeX_append (realItem_exact it file depth m base encl hR hDi hW.1)
-      (realBody_exact b file depth _ _ encl hR2 hDb hW.2)
+    exact agreeX_append (realItem_exact it file depth m base encl hR hDi (Room_left hF') hW.1)
+      (realBody_exact b file depth _ _ encl (relX_adv hR (Room_left hF')) hDb (Room_right hF') hW.2)
 end
 
 theorem judgeX_of_agreeX : ∀ (evs : List Ev) (es : List Exec) (org : Nat), agreeX (stmts evs) es = true →
